@@ -55,6 +55,7 @@ type c53Interp struct {
 	stripDot  bool // one trailing dot of a configured name is insignificant
 	stripHost bool // one trailing dot of the dialed name is insignificant
 	unmapIPv4 bool // ::ffff:a.b.c.d is the IPv4 address a.b.c.d
+	anyZone   bool // an added IP matches the same address in another (or no) IPv6 zone
 }
 
 type c53Rule struct {
@@ -62,6 +63,7 @@ type c53Rule struct {
 	addr netip.Addr
 	bits int
 	name string
+	zone string // "ip" rules from AddFromString: the IPv6 zone the entry carried
 }
 
 func c53ParsePrefix(s string) (netip.Addr, int, bool) {
@@ -78,6 +80,17 @@ func c53ParseIP(s string) (netip.Addr, bool) {
 		return netip.Addr{}, false
 	}
 	return a, true
+}
+
+// c53ParseZonedIP also accepts an IPv6 literal with a zone ("fe80::1%eth0"), which is
+// an IP literal too (the package's own tests dial such hosts and expect them to be
+// matched against the added networks); the address is returned without the zone.
+func c53ParseZonedIP(s string) (netip.Addr, string, bool) {
+	a, err := netip.ParseAddr(s)
+	if err != nil {
+		return netip.Addr{}, "", false
+	}
+	return a.WithZone(""), a.Zone(), true
 }
 
 // c53Rules turns the configuration into rules, following the documentation of
@@ -112,8 +125,8 @@ func c53Rules(es []c53Entry) []c53Rule {
 				case strings.HasPrefix(v, "*."):
 					out = append(out, c53Rule{kind: "zone", name: v[2:]})
 				default:
-					if a, ok := c53ParseIP(v); ok {
-						out = append(out, c53Rule{kind: "ip", addr: a})
+					if a, z, ok := c53ParseZonedIP(v); ok {
+						out = append(out, c53Rule{kind: "ip", addr: a, zone: z})
 					} else {
 						out = append(out, c53Rule{kind: "host", name: v})
 					}
@@ -156,7 +169,7 @@ func c53NormName(s string, strip bool, in c53Interp) string {
 
 // c53Bypass is the verdict of the statement under one interpretation.
 func c53Bypass(rules []c53Rule, host string, in c53Interp) (bool, string) {
-	if ip, ok := c53ParseIP(host); ok {
+	if ip, zone, ok := c53ParseZonedIP(host); ok {
 		for _, r := range rules {
 			switch r.kind {
 			case "ip":
@@ -164,7 +177,10 @@ func c53Bypass(rules []c53Rule, host string, in c53Interp) (bool, string) {
 				if in.unmapIPv4 {
 					x, y = x.Unmap(), y.Unmap()
 				}
-				if x == y {
+				if x == y && (r.zone == zone || in.anyZone) {
+					if zone != "" {
+						return true, "ip-same-zone"
+					}
 					return true, "ip"
 				}
 			case "net":
@@ -200,7 +216,7 @@ func c53Bypass(rules []c53Rule, host string, in c53Interp) (bool, string) {
 
 // c53Related reports whether the dialed host is "near" a rule (non-triviality).
 func c53Related(rules []c53Rule, host string) bool {
-	if ip, ok := c53ParseIP(host); ok {
+	if ip, _, ok := c53ParseZonedIP(host); ok {
 		ip = ip.Unmap()
 		for _, r := range rules {
 			if r.kind != "ip" && r.kind != "net" {
@@ -345,8 +361,8 @@ func c53Prop(c c53Case, r *vp.Rec) error {
 	rules := c53Rules(c.Entries)
 	var verdicts [2]int
 	why := ""
-	for m := 0; m < 16; m++ {
-		in := c53Interp{foldCase: m&1 != 0, stripDot: m&2 != 0, unmapIPv4: m&4 != 0, stripHost: m&8 != 0}
+	for m := 0; m < 32; m++ {
+		in := c53Interp{foldCase: m&1 != 0, stripDot: m&2 != 0, unmapIPv4: m&4 != 0, stripHost: m&8 != 0, anyZone: m&16 != 0}
 		b, w := c53Bypass(rules, c.Host, in)
 		if b {
 			verdicts[1]++
@@ -355,9 +371,12 @@ func c53Prop(c c53Case, r *vp.Rec) error {
 			verdicts[0]++
 		}
 	}
-	_, isIP := c53ParseIP(c.Host)
+	_, hzone, isIP := c53ParseZonedIP(c.Host)
 	if isIP {
 		r.Class("host:ip")
+		if hzone != "" {
+			r.Class("host:ip-with-zone")
+		}
 	} else {
 		r.Class("host:name")
 	}
@@ -366,7 +385,7 @@ func c53Prop(c c53Case, r *vp.Rec) error {
 	}
 	switch {
 	case verdicts[0] > 0 && verdicts[1] > 0:
-		r.Class("ambiguous(case/trailing-dot/v4-mapped):not-asserted")
+		r.Class("ambiguous(case/trailing-dot/v4-mapped/other-zone):not-asserted")
 		return nil
 	case verdicts[1] > 0:
 		r.Class("want:bypass:" + why)
@@ -386,6 +405,8 @@ func c53Prop(c c53Case, r *vp.Rec) error {
 }
 
 // ---- generator ----
+
+var c53Zones = []string{"eth0", "en0", "en1", "1"}
 
 var c53Labels = []string{"a", "b", "example", "com", "org", "foo", "bar", "localhost", "corp", "3", "4", "x-y", "EXAMPLE", "Com"}
 
@@ -480,7 +501,11 @@ func c53GenEntry(t *rapid.T) c53Entry {
 		item := rapid.Custom(func(t *rapid.T) string {
 			switch rapid.IntRange(0, 6).Draw(t, "skind") {
 			case 0:
-				return strings.TrimSuffix(c53Decorate(t, c53GenIP(t).String()), ".")
+				a := c53GenIP(t)
+				if a.Is6() && !a.Is4In6() && rapid.IntRange(0, 2).Draw(t, "ezoned") == 0 {
+					a = a.WithZone(rapid.SampledFrom(c53Zones).Draw(t, "ezone"))
+				}
+				return strings.TrimSuffix(c53Decorate(t, a.String()), ".")
 			case 1:
 				return strings.TrimSuffix(c53Decorate(t, c53GenCIDR(t)), ".")
 			case 2, 3:
@@ -552,6 +577,14 @@ func c53GenHost(t *rapid.T, rules []c53Rule) string {
 		s := a.String()
 		if a.Is6() && rapid.IntRange(0, 4).Draw(t, "expand6") == 0 {
 			s = a.StringExpanded()
+		}
+		if a.Is6() && !a.Is4In6() {
+			switch z := rapid.IntRange(0, 5).Draw(t, "hzone"); {
+			case r.zone != "" && z < 4: // the zone of the entry
+				s += "%" + r.zone
+			case z == 5:
+				s += "%" + rapid.SampledFrom(c53Zones).Draw(t, "zone")
+			}
 		}
 		return s
 	default:
